@@ -260,6 +260,8 @@ class SpecCheck:
                             for t in texts:
                                 nontrivial_keys.add((orch.sha(self.case_text(spec)), orch.sha(t)))
                         self.observe(spec, meta, per_seed, stats)
+                        if len(samples) < 3 and not texts and self.fresh:
+                            samples.append({"k": k, "case": self.case_text(spec), "hash_seeds": hseeds[:4]})
                         if len(samples) < 3 and texts:
                             samples.append({"k": k, "yaml": self.case_text(spec), "distinct_texts": len(texts),
                                             "hash_seeds": hseeds[:4], "first_text_head": texts[0][:600]})
